@@ -5,12 +5,12 @@ package utils
 
 import (
 	"fmt"
-	"math"
 	"net"
 	"net/url"
 	"os"
 	"path"
 	"strconv"
+	"strings"
 	"time"
 
 	"github.com/ava-labs/avalanchego/ids"
@@ -19,6 +19,8 @@ import (
 	"github.com/onsi/ginkgo/v2/formatter"
 
 	"github.com/ava-labs/hypersdk/consts"
+
+	safemath "github.com/ava-labs/avalanchego/utils/math"
 )
 
 func ToID(bytes []byte) ids.ID {
@@ -65,16 +67,46 @@ func GetPort(uri string) (string, error) {
 	return purl.Port(), err
 }
 
-func FormatBalance(bal uint64) string {
-	return strconv.FormatFloat(float64(bal)/math.Pow10(int(consts.Decimals)), 'f', int(consts.Decimals), 64)
+// balanceUnit is the number of base units in one whole token (10^consts.Decimals).
+func balanceUnit() uint64 {
+	unit := uint64(1)
+	for i := 0; i < consts.Decimals; i++ {
+		unit *= 10
+	}
+	return unit
 }
 
+// FormatBalance renders [bal] base units as a decimal token amount with
+// exactly consts.Decimals fractional digits. The conversion is exact for
+// every uint64.
+func FormatBalance(bal uint64) string {
+	unit := balanceUnit()
+	return fmt.Sprintf("%d.%0*d", bal/unit, consts.Decimals, bal%unit)
+}
+
+// ParseBalance parses a decimal token amount ("12", "12.5", "0.000000001")
+// with at most consts.Decimals fractional digits into base units. The
+// conversion is exact; amounts that do not fit into a uint64 are rejected.
 func ParseBalance(bal string) (uint64, error) {
-	f, err := strconv.ParseFloat(bal, 64)
+	whole, fraction, _ := strings.Cut(bal, ".")
+	if len(fraction) > consts.Decimals {
+		return 0, fmt.Errorf("%w: %q has more than %d decimals", ErrTooManyDecimals, bal, consts.Decimals)
+	}
+	units, err := strconv.ParseUint(whole, 10, 64)
 	if err != nil {
 		return 0, err
 	}
-	return uint64(f * math.Pow10(int(consts.Decimals))), nil
+	// right-pad the fractional digits to exactly consts.Decimals digits
+	fraction += strings.Repeat("0", consts.Decimals-len(fraction))
+	subUnits, err := strconv.ParseUint(fraction, 10, 64)
+	if err != nil {
+		return 0, err
+	}
+	total, err := safemath.Mul(units, balanceUnit())
+	if err != nil {
+		return 0, err
+	}
+	return safemath.Add(total, subUnits)
 }
 
 func Repeat[T any](v T, n int) []T {
